@@ -612,3 +612,10 @@ def main(chk: Check) -> None:
     chk.extra["resolver_vectors"] = len(W.VECTORS)
     chk.explore("redirects", redirect_cases, run_redirect, quick=4000, thorough=90000)
     chk.explore("cookies", cookie_cases, run_cookie, quick=1000, thorough=20000)
+    # coverage-guided stage (thorough, shard 0 only): libFuzzer mutates the header / URL text, same oracle
+    found: list = []
+    if chk.replay is None and not chk.quick and not chk.violations and chk.shard_index == 0:
+        from lib import atheris_stage
+
+        found = atheris_stage.run_stage(chk, "lib.c37_fuzz", runs=40000, max_len=96)
+    chk.enumerate("atheris", found * chk.shard_count, run_redirect)
